@@ -20,7 +20,7 @@ def wname(w):
 
 
 def W(w):
-    return json.dumps(w, ensure_ascii=False) + "@"
+    return f"w_{wname(w)}()"
 
 
 ALPHABET = "abcdefghijklmnopqrstuvwxyz-'àâäçéèêëîïôöùûüáíóúñãõìòßij "
@@ -65,36 +65,52 @@ def digs(s):
     return {1: "d1", 2: "d2", 3: "d3"}[len(s)] + "(" + ", ".join(f"{ord(c)}u8" for c in s) + ")"
 
 
-def emit_words(c, words):
+def emit_words(c, words, inner_lemmas, arms=None):
+    """module <c>w: closed word constants (atoms for the solver, spelled-out for the interpreter inside the module),
+    bridging lemmas literal == constant, and the closed-computation lemmas that need the spellings"""
     words = sorted(set(words))
-    o = [f"// string literals are atoms for the solver; `wcode` gives each one an integer fingerprint (different fingerprints => different words),",
-         f"// computed once per literal by the interpreter on the spelled-out sequence",
-         f"pub proof fn {c}_codes()",
-         "    ensures " + ",\n            ".join(f"wcode({W(w)}) == {wcode(w)}" for w in words)]
-    o.append("{")
-    for w in words:
-        lit = json.dumps(w, ensure_ascii=False)
-        o.append(f"    reveal_strlit({lit}); assert({lit}@ =~= {seqlit(w)}); assert(wcode({seqlit(w)}) == {wcode(w)}) by(compute_only);")
-    o.append("}")
-    open(os.path.join(T, f"{c}_words.inc"), "w", encoding="utf-8").write("\n".join(o) + "\n")
-    json.dump(words, open(os.path.join(T, f"{c}_words.json"), "w", encoding="utf-8"), ensure_ascii=False)
-    return
-    words = sorted(set(words))
-    o = [f"// word constants of the `{c}` model (opaque to the solver: words are atoms; their spelling is only needed by the"
-         " closed computations of the row lemmas) and the bridging lemmas literal == constant"]
+    o = [f"// word constants of the `{c}` model: `closed`, so the solver treats every word as an atom; inside the module the",
+         f"// interpreter can evaluate their spelling (classification lemmas). vx_lit_<w>: code literal == constant.",
+         f"pub mod {c}w {{",
+         "    use vstd::prelude::*; use super::*;"]
     for w in words:
         n = wname(w)
         lit = json.dumps(w, ensure_ascii=False)
-        o.append(f"#[verifier::opaque] pub open spec fn w_{n}() -> Seq<char> {{ {seqlit(w)} }}")
-        o.append(f"pub proof fn vx_lit_{n}() ensures {lit}@ == w_{n}() {{ reveal(w_{n}); reveal_strlit({lit}); assert({lit}@ =~= {seqlit(w)}); }}")
+        o.append(f"    #[verifier::opaque] pub closed spec fn w_{n}() -> Seq<char> {{ {seqlit(w)} }}")
+        o.append(f"    pub proof fn vx_lit_{n}() ensures {lit}@ == w_{n}() {{ reveal(w_{n}); reveal_strlit({lit}); assert({lit}@ =~= {seqlit(w)}); }}")
+    if arms is not None:
+        mw = sorted(set(w for ws, _, _ in arms for w in ws))
+        o.append(f"    /// integer fingerprints of the model's words (computed on their spelling): different fingerprints => different words")
+        o.append(f"    pub proof fn {c}_codes()")
+        o.append("        ensures " + ",\n                ".join(f"wcode({W(w)}) == {wcode(w)}" for w in mw))
+        o.append("    {")
+        for w in mw:
+            o.append(f"        assert(wcode({W(w)}) == {wcode(w)}) by(compute_only);")
+        o.append("    }")
+    if arms is not None:
+        mw = sorted(set(w for ws, _, _ in arms for w in ws))
+        pairs = [(a, b) for i, a in enumerate(mw) for b in mw[i + 1:]]
+        o.append(f"    /// the words of the model are pairwise different (from their fingerprints)")
+        o.append(f"    pub proof fn {c}_distinct()")
+        o.append("        ensures " + ",\n                ".join(f"{W(a)} != {W(b)}" for a, b in pairs))
+        o.append(f"    {{ {c}_codes(); }}")
+    wc = open(os.path.join(T, "wcode.inc"), encoding="utf-8").read().replace("pub open spec fn", "#[verifier::opaque] pub closed spec fn")
+    o += ["    " + l for l in wc.split("\n")]
+    inner_path = os.path.join(T, f"{c}_inner.inc")
+    if os.path.exists(inner_path):
+        o += ["    " + l for l in open(inner_path, encoding="utf-8").read().split("\n")]
+    o += ["    " + l for l in inner_lemmas]
+    o.append("}")
+    o.append(f"pub use {c}w::*;")
     open(os.path.join(T, f"{c}_words.inc"), "w", encoding="utf-8").write("\n".join(o) + "\n")
     json.dump(words, open(os.path.join(T, f"{c}_words.json"), "w", encoding="utf-8"), ensure_ascii=False)
 
 
 def emit_model(c, arms, doc):
-    """direct if-chain mirroring the match of the code: literal alternatives, guard, action; a failed guard falls through"""
+    """<c>_status: direct if-chain mirroring the match of the code (word alternatives, guard, action; a failed guard falls
+    through).  <c>_arm / <c>_arm_sem: the same table split into word classification and state part."""
     out = [f"/// {doc}",
-           f"pub open spec fn {c}_status(l: Seq<char>, o: DsView) -> ApRes {{"]
+           f"#[verifier::opaque] pub open spec fn {c}_status(l: Seq<char>, o: DsView) -> ApRes {{"]
     for k, (ws, g, act) in enumerate(arms):
         cnd = cond(ws) + (f" && ({g})" if g else "")
         out.append(f"    {'if' if k == 0 else 'else if'} {cnd} {{ {act} }}")
@@ -166,38 +182,39 @@ def english():
 
     extra = ["seconds", "th", "ths", "first", "second", "third", "thirds", "st", "nd", "rd", "rds", "point", "-", ""]
     allwords = set(w for ws, _, _ in arms for w in ws) | set(w for w, _, _ in rows) | set(lemma_of(w) for w, _, _ in rows) | set(extra)
-    emit_words(c, allwords)
+    # (fingerprint lemmas are no longer needed: words are classified by the interpreter)
     o = ["// English grammar table (written from the grammar, not from the code): word -> place-value instruction, ordinal marker",
          "pub enum EnI { Zero, Unit(u8), Two(u8, u8), Hundred, Thousand, Million, Billion }"]
+    KIND = {None: 0, "th": 1, "ths": 2, "st": 3, "nd": 4, "rd": 5, "rds": 6}
+    inner = []
     NMOD = 8
     mods = [[] for _ in range(NMOD)]
     for k, (w, ins, m) in enumerate(rows):
-        mk = f"Some({W(m)})" if m else "None::<Seq<char>>"
         l = lemma_of(w)
-        arm = arm_of.get(l, -1)
         ordf = l.endswith("th") or w in ("first", "second") or l == "third"
+        kind = KIND[marker_of(w)]
+        inner.append(f"/// string-level facts about `{w}` (closed computation on its spelling)")
+        inner.append(f"pub proof fn lemma_en_word_{k}()")
+        inner.append(f"    ensures en_lemma({W(w)}) == {W(l)}, en_ord_form({W(w)}, {W(l)}) == {'true' if ordf else 'false'}, en_marker_kind({W(w)}) == {kind},")
+        inner.append("{")
+        inner.append(f"    assert(en_lemma({W(w)}) =~= {W(l)}) by(compute_only);")
+        inner.append(f"    assert(en_ord_form({W(w)}, {W(l)}) == {'true' if ordf else 'false'}) by(compute_only);")
+        inner.append(f"    assert(en_marker_kind({W(w)}) == {kind}) by(compute_only);")
+        inner.append("}")
         b = mods[k % NMOD]
         b.append(f"    // props: C01, C04, C08, C16")
-        b.append(f"    pub proof fn lemma_en_row_{k}(o: DsView) // word `{w}`")
-        b.append(f"        ensures en_row({ins}, {mk}, o, en_model({W(w)}, o))")
+        b.append(f"    /// grammar row `{w}` -> {ins}" + (f", ordinal marker `{m}`" if m else ""))
+        b.append(f"    pub proof fn lemma_en_row_{k}(o: DsView)")
+        b.append(f"        ensures en_row({ins}, {KIND[m]}, o, en_model({W(w)}, o))")
         b.append("    {")
-        b.append(f"        en_codes(); lemma_en_c({W(w)});")
-        def bridge(x):
-            lit = json.dumps(x, ensure_ascii=False)
-            return f"reveal_strlit({lit}); assert({lit}@ =~= {seqlit(x)});"
-        b.append("        " + bridge(w) + " " + (bridge(l) if l != w else ""))
-        b.append(f"        assert(en_lemma_c({seqlit(w)}) =~= {seqlit(l)}) by(compute_only);")
-        kind = {None: 0, "th": 1, "ths": 2, "st": 3, "nd": 4, "rd": 5, "rds": 6}[marker_of(w)]
-        b.append(f"        assert(en_marker_kind_c({seqlit(w)}) == {kind}) by(compute_only);")
-        b.append(f"        assert(en_ord_form_c({seqlit(w)}, {seqlit(l)}) == {'true' if ordf else 'false'}) by(compute_only);")
-        if ordf:
-            b.append(f"        {bridge(marker_of(w))}")
+        b.append(f"        en_distinct(); lemma_en_word_{k}(); reveal(en_status);")
         b.append("    }")
     for i, b in enumerate(mods):
         o.append(f"pub mod en_rows_{i} {{")
         o.append("    use vstd::prelude::*; use super::*;")
         o += b
         o.append("}")
+    emit_words(c, allwords, inner, arms)
     open(os.path.join(T, "en_rows.inc"), "w", encoding="utf-8").write("\n".join(o) + "\n")
     json.dump([{"word": w, "instr": ins, "marker": m} for w, ins, m in rows], open(os.path.join(T, "en_rows.json"), "w"))
     print("en:", len(arms), "arms,", len(rows), "rows,", len(allwords), "words")
